@@ -137,7 +137,8 @@ def build(ctx, chain=False, discrete=False):
     else:
         allocs = None
         if nrc:
-            space = BoxPortfolio(cs, -1e9, 1e9, as_weights=False)
+            # (one more contract is listed in the space but never quoted: a leg in it cannot be traded)
+            space = BoxPortfolio(cs + [ETF("GHOST")], -1e9, 1e9, as_weights=False)
         else:
             space = BoxPortfolio(cs, -1.5, 1.5, margin=(rng.choice([0, 0.02]) if chain else 0.0))
     sink = ep.Sink()
@@ -205,6 +206,7 @@ def ledger_episode(ctx, props, chain=False, discrete=False, prebuilt=None):
     reuse_buffer = rng.random() < 0.25
     buf = None
     fork_at = rng.randint(1, 4) if rng.random() < 0.2 else None
+    refuse_at = rng.randint(0, 3) if (d == 0 and not discrete and not chain and rng.random() < 0.3) else None
     if reuse_buffer and not discrete:
         ctx.cat("action-buffer-reused-in-place")
     with Mon(sink) as mon:
@@ -225,8 +227,8 @@ def ledger_episode(ctx, props, chain=False, discrete=False, prebuilt=None):
                 a = np.array([rng.choice([0.0, rng.uniform(-0.4, 0.5)]) for _ in cs])
                 a = np.where(a != 0, a + 1e-6 * (k + 1), a)
                 if cfg.get("nrc"):
-                    # numbers of contracts, sized like the weights above at the first quotes
-                    a = np.array([w * cash0 / (cfg["px0"][c] * c.multiplier) for w, c in zip(a, cs)])
+                    # numbers of contracts, sized like the weights above at the first quotes (nothing in the ghost)
+                    a = np.array([w * cash0 / (cfg["px0"][c] * c.multiplier) for w, c in zip(a, cs)] + [0.0])
                 if rng.random() < 0.12 and not cfg.get("nrc"):
                     # a target so small that the trade it asks for is below 1e-7 contracts (the broker's own
                     # tolerance for positions): it is still a trade - executed, charged, recorded
@@ -234,6 +236,46 @@ def ledger_episode(ctx, props, chain=False, discrete=False, prebuilt=None):
                     ctx.cat("target-asks-for-dust-trade")
             acts.append(a)
             mark = len(sink.log)
+            if refuse_at == k:
+                # a decision the environment REFUSES (out of the declared bounds; or, with positions in numbers of
+                # contracts, a multi-leg decision whose last leg is in a contract without quote): it raises, the
+                # caller catches it and submits a proper decision for the same timestep - nothing of the refused
+                # one may have happened, and the episode goes on as if it had never been submitted
+                bad = np.array(a, dtype=float)
+                if cfg.get("nrc"):
+                    bad[-1] = rng.choice([-2.0, 3.0])
+                    if not np.any(bad[:-1]):
+                        bad[0] = 1.0
+                else:
+                    bad = bad + 10.0
+                h0_, n0_, tx0_ = env.broker.holdings_quantity, len(env.broker.track_record), mon.n_transact
+                try:
+                    env.step(bad)
+                    refused = False
+                except EndOfEpisodeError:
+                    refused = None
+                except Exception:
+                    refused = True
+                if refused is not None:
+                    pfx = "C08" if "C08" in props else "C07" if "C07" in props else "C01"
+                    noncash = lambda h_: {c_: q_ for c_, q_ in h_.items() if not isinstance(c_, Cash)}
+                    # (cash may have moved by the interest of the elapsed period, which C13 allows; the positions not)
+                    ctx.check(pfx + ":refused-decision-leaves-no-trace", refused and noncash(env.broker.holdings_quantity) == noncash(h0_) and
+                              len(env.broker.track_record) == n0_ and mon.n_transact == tx0_, raised=refused,
+                              transacts=mon.n_transact - tx0_, records=len(env.broker.track_record) - n0_, nrc=bool(cfg.get("nrc")))
+                # what the refused attempt wrote into the log is market data (kept) and the markers of a rebalance that
+                # did not happen (dropped, except the cash balance before the interest of the period was credited)
+                kept, seen_cash = [], False
+                for x_ in sink.log[mark:]:
+                    if x_[0] == "CASH" and not seen_cash:
+                        seen_cash = True
+                        kept.append(("CASH-FIRST",) + tuple(x_[1:]))
+                    elif x_[0] not in ("REB", "REBEND", "TX", "CASH"):
+                        kept.append(x_)
+                n_reb_refused = sum(1 for x_ in sink.log[mark:] if x_[0] == "REB")
+                sink.log[mark:] = kept
+                mon.n_rebalance -= n_reb_refused
+                ctx.cat("decision-refused-then-resubmitted")
             if reuse_buffer and not discrete:
                 # the caller keeps ONE array for its actions and overwrites it in place for every decision (a
                 # pre-allocated action buffer): what was submitted is the content at submission time
@@ -261,7 +303,6 @@ def ledger_episode(ctx, props, chain=False, discrete=False, prebuilt=None):
                 finally:
                     AbstractContract.now = env.now() if env.now() is not None else AbstractContract.now
                     mon.n_rebalance, mon.n_transact = counters      # (the fork's calls are not this episode's)
-                del sink.log[mark:]      # (the fork's observer is a copy; nothing of it belongs to this log)
             try:
                 o, r, done, info = env.step(a)
             except EndOfEpisodeError:
@@ -297,6 +338,7 @@ def ledger_episode(ctx, props, chain=False, discrete=False, prebuilt=None):
     prev_pre = None
     last_reb_time = None
     cash_snap = None
+    cash_first = None
     step_end = {m1: (r, j) for j, (r, info, m0, m1) in enumerate(outs)}
     simple_prod = 1.0
     nlv_end = None
@@ -353,8 +395,13 @@ def ledger_episode(ctx, props, chain=False, discrete=False, prebuilt=None):
                 ctx.check("C11:not-held-at-expiry", led.pos.get(c, 0.0) == 0.0, contract=c.symbol, pos=led.pos.get(c, 0.0))
             led.drop_quote(c)
             last_m = x[2]
+        elif kind == "CASH-FIRST":
+            cash_first = x[5]
         elif kind == "CASH":
-            cash_snap = x[5]
+            # (if an attempt at this decision was refused, the interest of the period was credited THEN: the balance
+            #  it accrued on is the one before that attempt)
+            cash_snap = x[5] if cash_first is None else cash_first
+            cash_first = None
         elif kind == "REB":
             k += 1
             if k >= len(trk):
